@@ -42,6 +42,15 @@ pub struct NodeSetup {
     /// own incarnation the node starts with (reached the legitimate way: a refuted suspicion)
     #[serde(default)]
     pub own_inc: u16,
+    /// max_packet_size (0 = 1400): small packets truncate Feeds, so selections end early
+    #[serde(default)]
+    pub packet: u16,
+    /// further third-party members known as Alive (addresses 20..)
+    #[serde(default)]
+    pub crowd: u8,
+    /// an Announce from the next participant is handled during the set-up (its Feed reply is discarded)
+    #[serde(default)]
+    pub pre_announce: bool,
 }
 
 #[derive(Clone, Debug, Serialize, Deserialize)]
@@ -84,7 +93,13 @@ pub fn exec(c: &C18Case, out: &mut CaseOut) -> Result<(), Fail> {
         .map(|(i, s)| {
             Inst::new(
                 Id::with_renew(i as u16, s.gen as u16, s.renew),
-                CfgSpec { notify_down: s.notify_down, max_tx: s.max_tx.clamp(1, 5), num_indirect: s.num_indirect.clamp(1, 3), ..CfgSpec::default() },
+                CfgSpec {
+                    notify_down: s.notify_down,
+                    max_tx: s.max_tx.clamp(1, 5),
+                    num_indirect: s.num_indirect.clamp(1, 3),
+                    max_packet: if s.packet == 0 { 1400 } else { s.packet as u32 },
+                    ..CfgSpec::default()
+                },
                 c.codec,
                 s.rng_seed,
                 HandlerSpec::SIMPLE,
@@ -124,8 +139,16 @@ pub fn exec(c: &C18Case, out: &mut CaseOut) -> Result<(), Fail> {
             let m = Member::new(Id::new(10 + *a as u16, 0), 0, st(*stt));
             insts[i].raw_call(&Call::ApplyMany(vec![m], true));
         }
+        for a in 0..s.crowd {
+            insts[i].raw_call(&Call::ApplyMany(vec![Member::new(Id::new(20 + a as u16, 0), 0, State::Alive)], false));
+        }
         for n in 0..s.items {
             insts[i].raw_call(&Call::AddBroadcast(vec![n, 1, 7, 7]));
+        }
+        if s.pre_announce && k > 1 {
+            let from = ids0[(i + 1) % k];
+            let h = Header { src: from, src_incarnation: 0, dst: *insts[i].foca.identity(), message: Message::Announce };
+            insts[i].raw_call(&Call::Data(wire::build(c.codec, &h, None, &[])));
         }
         if s.leave {
             insts[i].raw_call(&Call::Leave);
@@ -290,8 +313,9 @@ impl Part for CascadePart {
             0..3u8,
             prop_oneof![3 => Just(true), 1 => Just(false)],
             prop_oneof![4 => Just(0u16), 3 => 1..4u16, 1 => Just(u16::MAX - 1), 1 => Just(u16::MAX)],
+            (prop_oneof![3 => Just(0u16), 1 => 30..120u16], prop_oneof![2 => Just(0u8), 1 => 1..13u8], prop_oneof![2 => Just(false), 1 => Just(true)]),
         )
-            .prop_map(|((gen, renew, notify_down, max_tx, num_indirect, rng_seed), knows, third, leave, items, mesh, own_inc)| NodeSetup { gen: gen + 1, renew, notify_down, max_tx, num_indirect, rng_seed, knows, third, leave, items, mesh, own_inc });
+            .prop_map(|((gen, renew, notify_down, max_tx, num_indirect, rng_seed), knows, third, leave, items, mesh, own_inc, (packet, crowd, pre_announce))| NodeSetup { gen: gen + 1, renew, notify_down, max_tx, num_indirect, rng_seed, knows, third, leave, items, mesh, own_inc, packet, crowd, pre_announce });
         let trigger = prop_oneof![
             12 => (0..3u8, 0..3u8, 0..11u8, prop_oneof![6 => Just(0i8), 1 => Just(-1i8), 1 => Just(1i8)], prop_oneof![8 => Just(0i8), 1 => Just(-1i8), 1 => Just(1i8)], 0..3u8, any::<u8>(), proptest::collection::vec(know, 0..4))
                 .prop_map(|(from, to, kind, src_gen_delta, dst_gen_delta, third, probe_no, updates)| Trigger::Datagram { from, to, kind, src_gen_delta, dst_gen_delta, third, probe_no, updates }),
@@ -315,7 +339,7 @@ pub fn run(ctx: &Ctx, report: &mut Report) -> EvidenceMeta {
     ctx.run_part(&CascadePart, report);
     EvidenceMeta {
         level: "exploration",
-        rule: "proptest-generated groups of 2..3 real instances put into generated mutual-knowledge states through real calls (each knows each other under its current / an older / a newer identity as Alive, Suspect or Down, at incarnation 0..2 or MAX; each instance itself at incarnation 0, 1..3, MAX-1 or MAX; third-party members; pending updates and custom broadcasts; itself active, idle or Defunct via leave_cluster), identities that renew, do not, or renew badly (same / losing identity), notify_down_members on/off per instance, max_transmissions 1..5, fan-out 1..3; then ONE trigger (a datagram of any of the 11 kinds between two of them, possibly under stale identities and with updates about the participants, or announce / gossip / broadcast) and, with all timers held, a generated delivery order (FIFO, LIFO, random) of everything that results, fed back until the network is empty. Oracle: every delivery causes at most (u+2)*num_indirect_probes + 2 new datagrams (u = updates about the receiver in that datagram) and the network empties within a budget derived from the case (64 + 4*(2f+2)*k*max_tx*(S+1), S = Suspect entries present at the start); measured cascade lengths are reported. A cascade that exceeds the budget is reported with the repeating tail. Non-trivial: cascade of >= 3 deliveries or a mutual-Down pair; distinct = (k, length, mutual Down, kinds seen, order)."
+        rule: "proptest-generated groups of 2..3 real instances put into generated mutual-knowledge states through real calls (each knows each other under its current / an older / a newer identity as Alive, Suspect or Down, at incarnation 0..2 or MAX; each instance itself at incarnation 0, 1..3, MAX-1 or MAX; in a quarter of the cases packets of 30..120 bytes, up to 12 further Alive third-party members and an Announce handled during the set-up, so that a Feed was truncated and selections ended early before the trigger; third-party members; pending updates and custom broadcasts; itself active, idle or Defunct via leave_cluster), identities that renew, do not, or renew badly (same / losing identity), notify_down_members on/off per instance, max_transmissions 1..5, fan-out 1..3; then ONE trigger (a datagram of any of the 11 kinds between two of them, possibly under stale identities and with updates about the participants, or announce / gossip / broadcast) and, with all timers held, a generated delivery order (FIFO, LIFO, random) of everything that results, fed back until the network is empty. Oracle: every delivery causes at most (u+2)*num_indirect_probes + 2 new datagrams (u = updates about the receiver in that datagram) and the network empties within a budget derived from the case (64 + 4*(2f+2)*k*max_tx*(S+1), S = Suspect entries present at the start); measured cascade lengths are reported. A cascade that exceeds the budget is reported with the repeating tail. Non-trivial: cascade of >= 3 deliveries or a mutual-Down pair; distinct = (k, length, mutual Down, kinds seen, order)."
             .into(),
         assumptions: vec!["timers are held for the whole cascade (the statement's premise); datagrams to addresses outside the group are dropped".into()],
     }
